@@ -68,6 +68,7 @@ class C07(Prop):
         fifo = all(e[0] not in ("fire", "poll") for e in case.events)
         t = 0
         seen = []
+        terms = []
         for k, e in enumerate(case.events):
             b = lines.get(k)
             if b is None:
@@ -100,6 +101,8 @@ class C07(Prop):
                     if v in seen:
                         return {"kind": "duplicate", "event": k, "detail": o}
                     seen.append(v)
+                elif o.startswith("E") or o == "C":
+                    terms.append(o)
         if only_moving and not pipe_has_map(pipe) and self._src(pipe) == "hot":
             # completeness: the source completed, nobody unsubscribed, every task has run
             evs = case.events
@@ -116,6 +119,17 @@ class C07(Prop):
                     kind = "lost-items-fifo" if fifo else "lost-items-nonfifo"
                     return {"kind": kind, "event": len(evs) - 1,
                             "detail": f"source completed after {before}, delivered {seen}"}
+            # "followed by the source's terminal": the source terminated (completion or error), nobody
+            # unsubscribed, every task has run -> the terminal must have arrived (any run order)
+            first_term = next((e[2] for e in evs if e[0] == "emit" and (e[2] == "c" or
+                               (isinstance(e[2], list) and e[2][0] == "e"))), None)
+            subscribed_late = any(h in ("subscribeon", "delaysub", "delaysubat") for h in self._heads(pipe))
+            if (first_term is not None and not any(e[0] == "unsub" for e in evs) and kv.get("live") == 0
+                    and not subscribed_late and evs and evs[0][0] == "sub"):
+                wantt = "C" if first_term == "c" else "E" + str(first_term[1])
+                if terms != [wantt]:
+                    return {"kind": "terminal-lost", "event": len(evs) - 1,
+                            "detail": f"source terminated with {wantt}, every task has run, terminals delivered: {terms}"}
             want = [v for v in order if v in seen]
             if seen != want:
                 kind = "order-violated-fifo" if fifo else "order-violated-nonfifo"
